@@ -127,6 +127,8 @@ def gen_filter(rng, events, limit_pool=(None, None, None, 0, 1, 2, 3, 5, 100)):
             f["until"] = max(0, base + rng.choice([101, 1, 0, -1, 256, 65536]))
         if rng.random() < 0.05:
             f["since"] = 0
+        if rng.random() < 0.06:
+            f["until"] = 0          # nothing is that old: such a filter matches no event
     if rng.random() < 0.1:
         # hex strings of *more* than 64 digits pass the filter validation (only shorter ones are refused): they can match
         # no event, alone or next to proper values
